@@ -114,7 +114,22 @@ class Project:
         kind = op[0]
         m = self.model
         obs = {"op": op}
-        if kind in ("ifchange", "redo"):
+        if kind == "kbuild":
+            # ["kbuild", [targets], victim, position]: redo-ifchange of the targets, interrupted -- the whole process
+            # tree is SIGKILLed -- when victim's script reaches the position (if it gets there at all)
+            targets, victim, pos = list(op[1]), op[2], str(op[3])
+            before = self.snapshot()
+            mb = copy.deepcopy(m)
+            rc, out, err = self.redo(["redo-ifchange"] + targets, {"env": {"RV_KILL": "%s:%s" % (victim, pos)}})
+            trace = self.read_trace()
+            pred = RefBuild(m).run("ifchange", targets, observed=executed(trace), kill=(victim, pos))
+            obs.update(rc=rc, out=out, err=err, trace=trace, pred=pred, before=before, after=self.snapshot(),
+                       model_before=mb, killed=(rc == -9))
+            if not pred["killed"] and rc != -9:
+                obs["op"] = ["ifchange", targets]      # the kill point was not reached: an ordinary build, judged as one
+            elif pred["killed"] != (rc == -9):
+                obs["kill_mismatch"] = True
+        elif kind in ("ifchange", "redo"):
             targets = list(op[1])
             opts = op[2] if len(op) > 2 else {}
             argv = ["redo-ifchange"] if kind == "ifchange" else ["redo"]
@@ -176,7 +191,7 @@ class Project:
             mk.append((X, bool(m.built.get(X)), bool(m.failed.get(X)), m.owner.get(X), m.kind_at_build.get(X),
                        tuple(sorted((d, mode, m.ver.get(d, 0) == sv) for d, (mode, sv) in m.seen.get(X, {}).items()))))
         dov = tuple(sorted(m.variant.items()))
-        return json.dumps([files, canon.db_key(self.p), mk, dov], sort_keys=True, default=str)
+        return json.dumps([files, canon.db_key(self.p), mk, dov, sorted(m.interrupted)], sort_keys=True, default=str)
 
 
 # ---------------------------------------------------------------------------
